@@ -85,6 +85,7 @@ func cmdEngineTraces(args []string) {
 	calls := fs.Int("calls", 1, "maximum number of calls on one instance")
 	cancel := fs.Bool("cancel", false, "sweep cancellation points")
 	flagP := fs.Float64("flagp", 0.0, "probability of ReturnErrOnFailedRuleEvaluation")
+	nestP := fs.Float64("nest", 0.0, "probability that a fact method of the call runs another rule set on the same engine value")
 	shadowP := fs.Float64("shadow", 0.0, "probability that the first call is repeated without listeners on a fresh instance")
 	maxcyc := fs.Int("maxcycle", 8, "upper bound of MaxCycle")
 	listeners := fs.Int("listeners", 1, "maximum number of listeners")
@@ -115,7 +116,7 @@ func cmdEngineTraces(args []string) {
 	for i := 0; i < *n; i++ {
 		prog := g.Program()
 		rules, _ := json.Marshal(prog.JS())
-		c := &Case{GRL: prog.GRL(), Parts: prog.Parts(2 + r.Intn(2)), RulesJS: rules, Variant: vs[r.Intn(len(vs))], Profile: p.Name, Listener: 1 + r.Intn(*listeners)}
+		c := &Case{GRL: prog.GRL(), JSONRules: prog.JSONText(), Parts: prog.Parts(2 + r.Intn(2)), RulesJS: rules, Variant: vs[r.Intn(len(vs))], Profile: p.Name, Listener: 1 + r.Intn(*listeners)}
 		c.Other = g.World()
 		c.Counted = json.RawMessage(`{"k":"none"}`)
 		if p.OneHeavy && g.heavy != nil {
@@ -134,6 +135,9 @@ func cmdEngineTraces(args []string) {
 			}
 			if k == 0 && r.Float64() < *shadowP {
 				cc.Shadow = true
+			}
+			if r.Float64() < *nestP {
+				cc.NestAt = 1 + r.Intn(3)
 			}
 			c.Calls = append(c.Calls, cc)
 		}
